@@ -3,6 +3,9 @@ from lib import eqgen as G
 from lib.gallina import gbool
 
 ID = "C08"
+LOG_EXACT = False                # (timing-dependent observables: only the property's predicate is evaluated under DEBUG)
+LOG_SAMPLE = 120
+LOG_LEVEL_INVARIANT = True
 RUN_MODULE = "RunC08"
 DRIVER = "equalizer_sim.py"
 SHARD = 400
